@@ -425,7 +425,14 @@ func Run(r *core.Run) {
 	go func() {
 		defer close(streamDone)
 		seen := map[string]bool{}
-		res := tlcrun.MustHold(r, tlcrun.Options{Module: "ServiceStream", Config: "ServiceStream.clone.cfg", Workers: 2, TimeoutSec: 1500,
+		// quick: 2 packets cut into <= 3 writes, safety + liveness in one run;
+		// thorough: 3 packets (ServiceStream.clone.cfg) and liveness with a read
+		// buffer smaller than a packet (ServiceStream.live.cfg)
+		streamCfg := "ServiceStream.quick.cfg"
+		if r.Thorough() {
+			streamCfg = "ServiceStream.clone.cfg"
+		}
+		res := tlcrun.MustHold(r, tlcrun.Options{Module: "ServiceStream", Config: streamCfg, Workers: 2, TimeoutSec: 1500,
 			OnCase: func(raw []byte) {
 				ch := &chunking{Src: "tlc"}
 				if err := json.Unmarshal(raw, ch); err != nil {
@@ -439,14 +446,16 @@ func Run(r *core.Run) {
 			}})
 		if res != nil {
 			tmu.Lock()
-			tlcInfo["stream.clone"] = map[string]interface{}{"generated": res.Generated, "distinct": res.Distinct, "depth": res.Depth, "chunkings": len(chunkings), "wall_s": res.Wall.Seconds()}
+			tlcInfo["stream."+strings.TrimSuffix(strings.TrimPrefix(streamCfg, "ServiceStream."), ".cfg")] = map[string]interface{}{"generated": res.Generated, "distinct": res.Distinct, "depth": res.Depth, "chunkings": len(chunkings), "wall_s": res.Wall.Seconds()}
 			tmu.Unlock()
 		}
 	}()
 	streamRest := make(chan struct{})
 	go func() {
 		defer close(streamRest)
-		if res := tlcrun.MustHold(r, tlcrun.Options{Module: "ServiceStream", Config: "ServiceStream.live.cfg", Workers: 2, TimeoutSec: 900}); res != nil {
+		if !r.Thorough() {
+			// (liveness is part of ServiceStream.quick.cfg)
+		} else if res := tlcrun.MustHold(r, tlcrun.Options{Module: "ServiceStream", Config: "ServiceStream.live.cfg", Workers: 2, TimeoutSec: 900}); res != nil {
 			tmu.Lock()
 			tlcInfo["stream.live"] = map[string]interface{}{"generated": res.Generated, "distinct": res.Distinct, "depth": res.Depth}
 			tmu.Unlock()
@@ -670,7 +679,13 @@ func runPipe(r *core.Run, exes []sessionOpts, all []*chunking, jobs chan []*sess
 			sets = append(append([][]string{}, kindSets...), mixed)
 		}
 		for _, ks := range sets {
-			kinds := make([]string, ch.NPkt)
+			// (a wave has at least 3 packets: the chunkings of the 2-packet model
+			// cut the first two, the third follows whole)
+			nk := ch.NPkt
+			if nk < 3 {
+				nk = 3
+			}
+			kinds := make([]string, nk)
 			for i := range kinds {
 				kinds[i] = ks[i%len(ks)]
 			}
